@@ -37,6 +37,20 @@ CLAIMED = {
              'Not decided: behaviour of user code that mutates copies (ownership shape is decided, not executions).',
         technique='initialiser evaluation + structural rules over the resolved AST of the lookup functions',
     ),
+    'C10': dict(
+        category='proof',
+        text='Every group branch of LineEnergy, LineEnergyComposed and RadRate is enumerated as an abstract path (loops over '
+             'constant bounds and constant tables unrolled exactly); the value returned on each path is compared, as an '
+             'exact rational function over table cells and calls, with the average the property states (rate-weighted mean, '
+             'plain-mean fallback, error; K-alpha sum, K-beta complement, L-alpha sum, KO/KP first member; L-beta '
+             'cross-section-weighted mean with each member paired to its own shell). Member sets are derived from the '
+             'macro names of the current headers; the three L-beta member lists are cross-checked as siblings.',
+        design_ref='DESIGN.md section 2, C10',
+        note='Trusted: clang front end, E1 path enumeration, E2 normal forms, E3 name oracle, reader of radrate.dat for '
+             'don\'t-care members. Not decided: that a weighted mean lies between member energies when a member has a rate '
+             'but no tabulated energy (data-dependent numeric fact), rounding.',
+        technique='path-sensitive abstract interpretation with exact rational normal forms vs name-derived oracle',
+    ),
 }
 
 NOT_YET = {}
